@@ -32,4 +32,43 @@ MUTANTS = [
     dict(prop='C08', name='suppress-also-hides-after-first', edits=[(OUTPUT,
         "            self.show(color(symbol_color, ' ' * 6 + ' |  ' + ' '.join(map(lambda m: str(m), msg))))",
         "            self.show(color(symbol_color, ' ' * 6 + ' |  ' + ' '.join(map(lambda m: str(m).lstrip('['), msg))))")]),
+    dict(prop='C02', name='generation-off-by-one-on-reuse', edits=[(CONN,
+        "        generation = len(self.db[obj_id])\n", "        generation = max(0, len(self.db[obj_id]) - 1)\n")]),
+    dict(prop='C02', name='retrieve-latest-returns-first', edits=[(CONN,
+        "            obj = obj_list[generation]\n", "            obj = obj_list[generation if generation >= 0 else 0]\n")]),
+    dict(prop='C02', name='args-resolved-before-bind-typing', edits=[(MSG,
+        "        if self.obj.type == 'wl_registry' and self.name == 'bind':\n            assert len(self.args) == 4\n            assert isinstance(self.args[1], Arg.String)\n            assert isinstance(self.args[3], Arg.Object)\n            self.args[3].set_type(self.args[1].value)\n",
+        ""),
+        (MSG, "        for i, arg in enumerate(self.args):\n            arg.resolve(conn, self, i)\n",
+         "        for i, arg in enumerate(self.args):\n            arg.resolve(conn, self, i)\n        if self.obj.type == 'wl_registry' and self.name == 'bind':\n            self.args[3].set_type(self.args[1].value)\n")]),
+    dict(prop='C02', name='server-range-new-ids-not-created', edits=[(ARG,
+        "                if self.is_new:\n", "                if self.is_new and not self.obj.owned_by_server():\n")]),
+    dict(prop='C02', name='delete-id-resolves-args-first', edits=[(MSG,
+        "            self.destroyed_obj = conn.retrieve_object(first_arg.value, -1, None)",
+        "            self.destroyed_obj = conn.retrieve_object(first_arg.value, 0, None)")]),
+    dict(prop='C03', name='destroy-leaves-alive', edits=[(OBJ,
+        "        self.destroy_time = time\n        self.alive = False", "        self.destroy_time = time\n        self.alive = self.owned_by_server()")]),
+    dict(prop='C03', name='implicit-destroy-wrong-time', edits=[(CONN,
+        "                    last_obj.destroy(time)", "                    last_obj.destroy(last_obj.create_time)")]),
+    dict(prop='C03', name='lifespan-is-destroy-time', edits=[(OBJ,
+        "            return self.destroy_time - self.create_time", "            return self.destroy_time")]),
+    dict(prop='C03', name='delete-id-hits-first-generation', edits=[(MSG,
+        "            self.destroyed_obj = conn.retrieve_object(first_arg.value, -1, None)",
+        "            self.destroyed_obj = conn.retrieve_object(first_arg.value, 0, None)")]),
+    dict(prop='C03', name='delete-id-only-when-received', edits=[(MSG,
+        "        if self.obj == conn.wl_display() and self.name == 'delete_id' and len(self.args) > 0:",
+        "        if self.obj == conn.wl_display() and self.name == 'delete_id' and len(self.args) > 0 and not self.sent:")]),
+    dict(prop='C04', name='db-shared-between-connections', edits=[(CONN,
+        "        self.db = {1: [self.display]}", "        self.db = ConnectionImpl._db\n        self.db[1] = [self.display]"),
+        (CONN, "class ConnectionImpl(Connection.Sink, Connection):\n", "class ConnectionImpl(Connection.Sink, Connection):\n    _db: dict = {}\n")]),
+    dict(prop='C04', name='close-forgets-open-map', edits=[(MGR,
+        "            del self.open_connections[connection_id]\n", "")]),
+    dict(prop='C04', name='name-generator-per-open', edits=[(MGR,
+        "        name = self.connection_name_generator.next()", "        name = LetterIdGenerator().next() if not self.connection_list else self.connection_name_generator.next()")]),
+    dict(prop='C04', name='role-from-latest-get-registry', edits=[(PARSE,
+        "            is_server = None\n            if msg.name ==  'get_registry':\n                is_server = not msg.sent",
+        "            is_server = getattr(self, '_role', None)\n            if msg.name ==  'get_registry':\n                is_server = not msg.sent\n                self._role = is_server")]),
+    dict(prop='C04', name='base-time-free-but-display-shared', edits=[(MGR,
+        "        connection = self.open_connections.get(connection_id)\n        assert connection, 'Message sent",
+        "        connection = self.open_connections.get(connection_id) or (self.connection_list[-1] if self.connection_list else None)\n        assert connection, 'Message sent")]),
 ]
